@@ -38,27 +38,41 @@ def run(ctx):
     q = m.qi(ap)    # a private per-level helper is spliced in
     pushes = q.calls("push")
     ctx.check(len(pushes) == 8, "append", "count", ctx.loc(ap), "append_record has 8 push sites (4 scalar series + 4 per-level series)", "append_record has %d push sites" % len(pushes))
-    loop_next = [c for c in q.calls("next") if q.cfg.in_loop(c.b)]
-    # the level loop, read through its symbolic item (analysis/iterelem.py): `for i in 0..N`, `iter().zip(..).enumerate()`
-    # and friends all give "position i of the level arrays"; restricting / reordering adapters are not interpreted
+    # the level loop(s), read through their symbolic item (analysis/iterelem.py): `for i in 0..N`,
+    # `iter().zip(..).enumerate()`, one loop for all four per-level series or one loop each (a shared helper) all give
+    # "position i of the level arrays"; restricting / reordering adapters are not interpreted
     from analysis.iterelem import loop_item, rewrite, I
-    sym, bounds = loop_item(q, loop_next[0]) if len(loop_next) == 1 else (None, [])
     l2_fields = {x["name"]: x["ty"] for x in ctx.prog.adt_fields("bourse_book::types::Level2Data")}
-    rng_ok = sym is not None and bool(bounds)
-    for bd in bounds:
-        if bd[0] == "range":
-            rng_ok = rng_ok and bd[2][0] == "const" and "N" in str(bd[2][2])
-        else:
-            root, ns = names_of(bd[1])
-            ty = l2_fields.get(ns[-1], "") if ns and root[0] == "param" and root[2] == "record" else (rec_fields.get(ns[0], {}).get("ty", "") if ns and root[0] == "param" and root[1] == 1 else "")
-            rng_ok = rng_ok and ("; N]" in ty)
-    ctx.check(rng_ok, "append", "full-range", ctx.loc(ap), "the level loop visits every published level 0..N exactly once (%s)" % ("; ".join(b[0] for b in bounds) or "-"),
-              "the level loop does not range over exactly the N published levels (restricting / unrecognised iterator chain)")
+    heads = list(q.body.loop_heads())
+    loops = {}
+    for h in heads:
+        body_h = q.body.loop_body(h)
+        nx = [c for c in q.calls("next") if c.b in body_h]
+        sym, bounds = loop_item(q, nx[0]) if len(nx) == 1 else (None, [])
+        rng_ok = sym is not None and bool(bounds)
+        for bd in bounds:
+            if bd[0] == "range":
+                rng_ok = rng_ok and bd[2][0] == "const" and "N" in str(bd[2][2])
+            elif bd[0] == "take":
+                rng_ok = False
+            else:
+                root, ns = names_of(bd[1])
+                ty = l2_fields.get(ns[-1], "") if ns and root[0] == "param" and root[2] == "record" else (rec_fields.get(ns[0], {}).get("ty", "") if ns and root[0] == "param" and root[1] == 1 else "")
+                rng_ok = rng_ok and ("; N]" in ty)
+        loops[h] = (nx[0] if len(nx) == 1 else None, sym, body_h)
+        ctx.check(rng_ok, "append", "full-range", nx[0].loc() if nx else ctx.loc(ap), "the level loop visits every published level 0..N exactly once (%s)" % ("; ".join(b[0] for b in bounds) or "-"),
+                  "the level loop does not range over exactly the N published levels (restricting / unrecognised iterator chain)")
+        ctx.check(q.cfg.loop_runs_to_completion(h)[0], "append", "one-loop", nx[0].loc() if nx else ctx.loc(ap), "the level loop runs over every level (no early exit), straight-line body",
+                  "append_record's level loop can be left early")
+    ctx.check(1 <= len(heads) <= 4 and not any(h2 != h and h2 in loops[h][2] for h in heads for h2 in heads), "append", "loops", ctx.loc(ap),
+              "%d level loop(s), not nested" % len(heads), "append_record has %d loops / nested loops" % len(heads))
     seen = set()
     for c in pushes:
         a0, a1 = c.args[0], c.args[1]
+        mine = [h for h in heads if c.b in loops[h][2]]
+        nxt, sym = (loops[mine[0]][0], loops[mine[0]][1]) if mine else (None, None)
         if sym is not None:
-            a0, a1 = rewrite(a0, loop_next[0], sym), rewrite(a1, loop_next[0], sym)
+            a0, a1 = rewrite(a0, nxt, sym), rewrite(a1, nxt, sym)
         root, tgt = names_of(a0)
         _r2, src = names_of(a1)
         key = tuple(x for x in tgt if x != "[]")[:2]
@@ -76,15 +90,14 @@ def run(ctx):
             i2 = [x for x in walk(a1) if x[0] == "index"]
             ok = bool(i1 and i2) and i1[0][2] == I and i2[0][2] == I
         in_loop = q.cfg.in_loop(c.b)
-        only_some = all(a[0] == "variant" and a[2] == ("Some",) for a in c.guards)
+        # (the only conditions: this loop still has an item; an earlier level loop has run to its end)
+        only_some = all(a[0] == "variant" and a[1][0] == "call" and a[1][4] == "next" and
+                        (a[2] == ("Some",) if (nxt is not None and a[1] == nxt.result) else a[2] == ("None",)) for a in c.guards)
         ok = ok and (in_loop == lvl) and only_some
         seen.add(key)
         ctx.check(ok, "append", "push|%s" % ".".join(key), c.loc(), "self.%s%s <- record.%s%s" % (".".join(key), "[i]" if lvl else "", want[0] if want else "?", ("[i].%s" % want[1]) if want and want[1] else ""),
                   "series %s is fed from %s [%s]" % (render(a0), render(a1), c.gtext()))
     ctx.check(seen == set(PUSH_TABLE), "append", "all-series", ctx.loc(ap), "all 8 series groups are appended to", "series without a push: %s" % sorted(set(PUSH_TABLE) - seen))
-    inner = [h for h in q.body.loop_heads()]
-    ctx.check(len(inner) == 1 and q.cfg.loop_runs_to_completion(inner[0])[0], "append", "one-loop", ctx.loc(ap), "one level loop that runs over every level (no early exit), straight-line body",
-              "append_record's level loop can be left early")
 
     step_rules(ctx, m, (("Env", m.env_fn, "order_book"), ("MarketEnv", m.menv_fn, "market")))
     # "per-step traded volume = volume of the trades stamped within the step": the recorded value is the book's
@@ -123,13 +136,26 @@ def step_rules(ctx, m, owners):
         # `for asset in 0..ASSETS` and a zip over the per-asset arrays all mean "position i of every per-asset array"
         from analysis.iterelem import loop_item, rewrite, I as POS
         rec_next = [c for c in sq.calls("next") if c.b != s.loop_next.b and sq.cfg.in_loop(c.b) and after(c)]
-        sym = bounds = None
-        if owner != "Env" and len(rec_next) == 1:
-            sym, bounds = loop_item(sq, rec_next[0])
+        # (one loop for both per-asset series or one loop each: every call is read through the item of ITS loop)
+        loop_syms = {}
+        for nx in rec_next:
+            hs_ = sorted(sq.cfg.loops_containing(nx.b), key=lambda h: len(sq.body.loop_body(h)))
+            if owner != "Env" and hs_:
+                sy, bd = loop_item(sq, nx)
+                loop_syms[hs_[0]] = (nx, sy, bd, sq.body.loop_body(hs_[0]))
 
-        def rw(e):
-            return rewrite(e, rec_next[0], sym) if sym is not None else e
-        tvp = [c for c in sq.calls("push") if fld(rw(c.args[0]), tv_f) or any(fld(x, tv_f) for x in walk(rw(c.args[0])) if x[0] == "field")]
+        def loop_of(c):
+            for h_, (nx, sy, bd, body_) in loop_syms.items():
+                if c.b in body_:
+                    return h_
+            return None
+
+        def rw(e, c=None):
+            h_ = loop_of(c) if c is not None else (next(iter(loop_syms)) if len(loop_syms) == 1 else None)
+            if h_ is None or loop_syms[h_][1] is None:
+                return e
+            return rewrite(e, loop_syms[h_][0], loop_syms[h_][1])
+        tvp = [c for c in sq.calls("push") if fld(rw(c.args[0], c), tv_f) or any(fld(x, tv_f) for x in walk(rw(c.args[0], c)) if x[0] == "field")]
         ctx.check(len(aps) == 1 and after(aps[0]), "step", tag + "|append-once", aps[0].loc() if aps else ctx.loc(f), "one append_record per step, after the processing loop",
                   "%d append_record calls / not after the loop" % len(aps))
         ctx.check(len(tvp) == 1 and after(tvp[0]), "step", tag + "|tradevol-once", tvp[0].loc() if tvp else ctx.loc(f), "one traded-volume push per step, after the processing loop",
@@ -146,10 +172,13 @@ def step_rules(ctx, m, owners):
             gv = [c for c in sq.calls("get_trade_vol")]
             ctx.check(all(after(c) for c in gv), "step", tag + "|tradevol-after", t.loc(), "the counter is read after the processing loop")
         else:
-            # coverage: every asset, once
-            ok = sym is not None
+            # coverage: every asset, once (each loop that records something)
+            used = sorted({h_ for h_ in (loop_of(a), loop_of(t)) if h_ is not None})
+            ok = len(used) >= 1 and loop_of(a) is not None and loop_of(t) is not None and all(loop_syms[h_][1] is not None for h_ in used)
             cover = []
             if ok:
+              for h_ in used:
+                bounds = loop_syms[h_][2]
                 for bd in bounds:
                     if bd[0] == "range":
                         ok = ok and bd[1][0] == "const" and bd[1][3] == 0 and bd[2][0] == "const" and "ASSETS" in str(bd[2][2])
@@ -164,11 +193,11 @@ def step_rules(ctx, m, owners):
                             any(fld(y, rec_f) or fld(y, snap_f) or fld(y, tv_f) for y in walk(x) if y[0] == "field")
                         ok = ok and okc
                         cover.append(render(x)[:30])
-                ok = ok and sq.cfg.loop_runs_to_completion(sorted(sq.cfg.loops_containing(rec_next[0].b), key=lambda h: len(sq.body.loop_body(h)))[0])[0]
+                ok = ok and sq.cfg.loop_runs_to_completion(h_)[0]
             ctx.check(ok, "step", tag + "|asset-loop", rec_next[0].loc() if rec_next else ctx.loc(f), "per-asset recording loop covers every asset once (%s)" % ", ".join(cover),
                       "per-asset recording loop not recognised / restricted")
             if ok:
-                a0, a1, t0, tv = rw(a.args[0]), rw(a.args[1]), rw(t.args[0]), rw(t.args[1])
+                a0, a1, t0, tv = rw(a.args[0], a), rw(a.args[1], a), rw(t.args[0], t), rw(t.args[1], t)
                 i0 = [x for x in walk(a0) if x[0] == "index"]
                 i1 = [x for x in walk(a1) if x[0] == "index"]
                 i2 = [x for x in walk(t0) if x[0] == "index"]
